@@ -22,8 +22,10 @@ type Feat struct {
 	GroupDecs      bool
 	Variadic       bool
 	PVariadic      float64
+	PWide          float64 // probability of a function with 13-18 parameters
 	Callbacks      bool
 	Info           bool
+	LocPC          bool // LocationForPC on some declared constructors (C18: IDs are still per function)
 	NamedSlice     bool
 	Wild           float64 // probability that a constructor ignores the rank discipline
 	PAvail         float64 // probability of picking an available dependency
@@ -67,6 +69,7 @@ func (g *genCtx) newFunc(role Role) *Func {
 	}
 	if g.ft.Info && g.r.P(0.8) {
 		f.Info = true
+		f.ReuseInfo = g.r.P(0.25)
 	}
 	return f
 }
@@ -346,8 +349,14 @@ func (g *genCtx) genCtor(s int) *Func {
 	np := 0
 	if maxT > 0 {
 		np = g.r.Intn(g.ft.MaxParams + 1)
+		if g.r.P(ft.PWide) {
+			np = g.r.Range(13, 18)
+		}
 	}
 	f.Params = g.encodeParams(g.pickParamKeys(s, maxT, np, false), RoleCtor)
+	if np >= 13 && g.r.P(0.7) {
+		f.Params = oneObject(f.Params)
+	}
 	f.Variadic = ft.Variadic && g.r.P(ft.PVariadic)
 	f.Callback = ft.Callbacks && g.r.P(0.5)
 	return f
@@ -359,7 +368,13 @@ func (g *genCtx) genInvoke(s int) *Func {
 	if g.r.P(0.05) {
 		n = 0
 	}
+	if g.r.P(g.ft.PWide) {
+		n = g.r.Range(13, 18) // a very wide parameter list / parameter object
+	}
 	f.Params = g.encodeParams(g.pickParamKeys(s, g.ft.NT, n, true), RoleInv)
+	if n >= 13 {
+		f.Params = oneObject(f.Params)
+	}
 	f.HasErr = g.r.P(0.5)
 	f.Variadic = g.ft.Variadic && g.r.P(g.ft.PVariadic)
 	return f
@@ -584,6 +599,7 @@ func (g *genCtx) catCtor(s int) *Func {
 	f := g.fromCatalog(idx)
 	f.Export = g.ft.Export && s != 0 && g.r.P(0.3)
 	f.Callback = g.ft.Callbacks && g.r.P(0.6)
+	f.LocPC = g.ft.LocPC && g.r.P(0.3)
 	return f
 }
 
@@ -750,6 +766,15 @@ func BaseFeat(r *Rng, thorough bool) Feat {
 	if r.P(0.7) {
 		ft.Groups = []string{"g1", "g2"}[:r.Range(1, 2)]
 	}
+	if r.P(0.15) {
+		// keys that differ only in blanks are different keys
+		if len(ft.Names) > 0 {
+			ft.Names = append(ft.Names, ft.Names[0]+" ")
+		}
+		if len(ft.Groups) > 0 {
+			ft.Groups = append(ft.Groups, ft.Groups[0]+" ")
+		}
+	}
 	ft.Export = r.P(0.6)
 	ft.Objects = r.P(0.8)
 	ft.Optional = r.P(0.6)
@@ -760,6 +785,7 @@ func BaseFeat(r *Rng, thorough bool) Feat {
 	ft.GroupDecs = r.P(0.5)
 	ft.Variadic = r.P(0.3)
 	ft.PVariadic = []float64{0.1, 0.1, 0.4}[r.Intn(3)]
+	ft.PWide = []float64{0, 0, 0.03}[r.Intn(3)]
 	ft.Info = r.P(0.3)
 	ft.PErrFirst = []float64{0, 0.15, 0.3}[r.Intn(3)]
 	if r.P(0.2) {
@@ -1133,4 +1159,11 @@ func (g *genCtx) tmplSliceMembers() {
 		feeder()
 		request()
 	}
+}
+
+// oneObject puts every leaf parameter into a single flat parameter object.
+func oneObject(ps []Param) []Param {
+	var leaves []Param
+	collectParams(ps, &leaves)
+	return []Param{{Kind: PObj, Fields: leaves}}
 }
